@@ -48,6 +48,7 @@ func cmdFn(args []string) {
 	repo := fs.String("repo", "/repo", "repository")
 	verif := fs.String("verif", "/verif", "verif dir")
 	verbose := fs.Bool("v", false, "list all obligations")
+	prop := fs.String("prop", "", "assume only untagged and this property's ensures at call sites")
 	fs.Parse(args)
 	t0 := time.Now()
 	e, err := LoadEngine(*repo)
@@ -72,7 +73,7 @@ func cmdFn(args []string) {
 	for _, n := range names {
 		fn := e.funcs[n]
 		t1 := time.Now()
-		r := e.VerifyFunction(fn, *safe)
+		r := e.VerifyFunctionFor(fn, *safe, *prop)
 		Discharge(r.Obls, *tmo, runtime.NumCPU())
 		nd, nf, nu := 0, 0, 0
 		for _, o := range r.Obls {
@@ -105,7 +106,32 @@ func cmdFn(args []string) {
 	}
 }
 
-func cmdSweep(args []string) {}
+func cmdSweep(args []string) {
+	e, err := LoadEngine("/repo")
+	if err != nil {
+		fmt.Fprintln(os.Stderr, err)
+		os.Exit(2)
+	}
+	e.LoadAllContracts("/verif")
+	fns := e.sweepFunctions()
+	total := 0
+	t0 := time.Now()
+	results := make([]*FnResult, len(fns))
+	parallelDo(len(fns), runtime.NumCPU(), func(i int) { results[i] = e.verifySweep(fns[i]) })
+	for i, r := range results {
+		n := 0
+		for _, o := range r.Obls {
+			if o.Kind == "safe" {
+				n++
+			}
+		}
+		total += n
+		if n > 100 || r.Err != "" {
+			fmt.Printf("%-70s safe=%d defs=%d %s\n", fnName(fns[i]), n, len(r.VC.defs), r.Err)
+		}
+	}
+	fmt.Printf("%d functions, %d safe obligations, generation %.1fs\n", len(fns), total, time.Since(t0).Seconds())
+}
 
 func cmdMods(args []string) {
 	e, err := LoadEngine("/repo")
